@@ -169,8 +169,8 @@ pub fn decode_random(src: &mut Source) -> Box<dyn Case> {
             2 => ops.push(Op::Clear),
             3 => ops.push(Op::Limit(src.below(7))),
             _ => {
-                let l = src.pick(&["", "<", "[[", "a", "{"]).to_string();
-                let r = src.pick(&["", ">", "]]", "a", "}"]).to_string();
+                let l = src.pick(&["", "<", "[[", "a", "{", "<em>", "«", "【"]).to_string();
+                let r = src.pick(&["", ">", "]]", "a", "}", "</em>", "»", "】"]).to_string();
                 ops.push(Op::Markers(l, r));
             }
         }
